@@ -1352,7 +1352,157 @@ def r6_repl_cue(ctx):
             ctx.ob("C16.R6", f"{RD}::{fn.name} carries line and col", RD, fn.lineno, ok, "" if ok else "the error is built without line/col")
 
 
+def _guard_implies_isinstance(fns, test, var, tname):
+    """Is `test` (taken on its True outcome) enough for isinstance(var, tname)?  Either the test
+    itself, or a call of a module function all of whose returns are `isinstance(<param>, T) and ...`
+    (or the constant False) with <param> the parameter that receives var."""
+    if P.un(test) == f"isinstance({var}, {tname})":
+        return True
+    if isinstance(test, ast.BoolOp) and isinstance(test.op, ast.And):
+        return any(_guard_implies_isinstance(fns, v, var, tname) for v in test.values)
+    if isinstance(test, ast.Call) and isinstance(test.func, ast.Name) and test.func.id in fns:
+        g = fns[test.func.id]
+        pos = next((i for i, a in enumerate(test.args) if P.un(a) == var), None)
+        if pos is None or pos >= len(g.args.args):
+            return False
+        p = g.args.args[pos].arg
+        rets = [r for r in ast.walk(g) if isinstance(r, ast.Return) and r.value is not None]
+
+        def implies(v):
+            if isinstance(v, ast.Constant) and v.value is False:
+                return True
+            if P.un(v) == f"isinstance({p}, {tname})":
+                return True
+            return isinstance(v, ast.BoolOp) and isinstance(v.op, ast.And) and any(implies(x) for x in v.values)
+        return bool(rets) and all(implies(r.value) for r in rets)
+    return False
+
+
+@rule("C16.R8", floor=8)
+def r8_input_is_validated_with_syntax_errors(ctx):
+    """What the text can make false is tested with a raise of a syntax error, never assumed:
+    (a) an `assert isinstance(v, T)` on the result of a reader call needs a dominating test that
+        implies it -- otherwise text decides whether AssertionError escapes;
+    (b) a data reader taken from the reader tables is called with whatever form followed the tag:
+        the call sits in a handler that turns TypeError / ValueError into a syntax error;
+    (c) a form that came from the text is indexed by a constant only after its length was tested;
+    (d) every raw _read_next result that is embedded in a form is first compared with the COMMENT
+        sentinel (or the comment-filtering readers are used);
+    (e) the character reader answers an empty token, which only end of input can produce, with
+        eof_error."""
+    fns = _reader_functions(ctx)
+    readers = {n for n in fns if n.startswith("_read")}
+    n_a = n_c = n_d = 0
+    for fname, fn in sorted(fns.items()):
+        g = None
+        # (a)
+        for a in ast.walk(fn):
+            if not (isinstance(a, ast.Assert) and isinstance(a.test, ast.Call) and P.un(a.test.func) == "isinstance" and isinstance(a.test.args[0], ast.Name)):
+                continue
+            var, tname = a.test.args[0].id, P.un(a.test.args[1])
+            srcs = [x for x in ast.walk(fn) if isinstance(x, ast.Assign) and any(isinstance(t, ast.Name) and t.id == var for t in x.targets) and isinstance(x.value, ast.Call) and P.un(x.value.func) in readers]
+            if not srcs:
+                continue
+            n_a += 1
+            g = g or CFG(fn)
+            nodes = [nd for nd in g.nodes if nd.ast is a]
+
+            def implied(t, _b, lab, var=var, tname=tname):
+                return t.kind == "test" and lab is True and _guard_implies_isinstance(fns, t.ast, var, tname)
+            ok = bool(nodes) and all(g.edge_dominated(nd, implied) for nd in nodes)
+            ctx.ob("C16.R8", f"{RD}::{fname}::assert isinstance({var}, {tname}) on a value read from the text", RD, a.lineno, ok,
+                   "" if ok else f"`{var}` comes from {P.un(srcs[0].value.func)}(), which also returns other kinds of value, and nothing before the assert rules them out: the text decides whether AssertionError escapes the reader",
+                   witness="(read-string \"#nil 1\") => AssertionError")
+        # (c)
+        params = {x.arg for x in fn.args.args} - {"ctx"}
+        loopvars = {t.id for l in ast.walk(fn) if isinstance(l, ast.For) and isinstance(l.iter, ast.Name) and l.iter.id in params for t in ast.walk(l.target) if isinstance(t, ast.Name)}
+        for s in ast.walk(fn):
+            if not (isinstance(s, ast.Subscript) and isinstance(s.ctx, ast.Load) and isinstance(s.slice, ast.Constant) and isinstance(s.slice.value, int) and isinstance(s.value, ast.Name) and s.value.id in params | loopvars):
+                continue
+            var, k = s.value.id, s.slice.value
+            n_c += 1
+            g = g or CFG(fn)
+            nodes = [nd for nd in g.nodes if nd.ast is not None and nd.kind in ("stmt", "test", "iter") and P.contains(nd.ast, s)]
+
+            def long_enough(t, _b, lab, var=var, k=k):
+                if t.kind != "test" or not isinstance(t.ast, ast.Compare) or len(t.ast.ops) != 1 or P.un(t.ast.left) != f"len({var})" or not isinstance(t.ast.comparators[0], ast.Constant):
+                    return False
+                n, op = t.ast.comparators[0].value, t.ast.ops[0]
+                if isinstance(op, ast.NotEq):
+                    return lab is False and n > k
+                if isinstance(op, ast.Eq):
+                    return lab is True and n > k
+                if isinstance(op, ast.Gt):
+                    return lab is True and n >= k
+                if isinstance(op, ast.GtE):
+                    return lab is True and n > k
+                if isinstance(op, ast.Lt):
+                    return lab is False and n > k
+                return False
+            handlers = _enclosing_handlers(s, fn)
+            ok = (bool(nodes) and all(g.edge_dominated(nd, long_enough) for nd in nodes)) or any(_handler_covers(h, "IndexError") and _handler_raises_syntax(h) for h in handlers)
+            ctx.ob("C16.R8", f"{RD}::{fname}::{P.un(s)} after a length test", RD, s.lineno, ok,
+                   "" if ok else f"`{P.un(s)}` indexes a form from the text whose length nothing has tested: a shorter form raises IndexError out of the reader",
+                   witness="(read-string \"`(basilisp.core/unquote)\") => IndexError")
+        # (d)
+        if fname not in ("_read_next_consuming_comment", "_read_next_consuming_whitespace", "_read_next"):
+            for x in ast.walk(fn):
+                if isinstance(x, ast.Assign) and isinstance(x.value, ast.Call) and P.un(x.value.func) == "_read_next" and isinstance(x.targets[0], ast.Name):
+                    var = x.targets[0].id
+                    n_d += 1
+                    tested = any((isinstance(c, ast.Compare) and P.un(c.left) == var and any(P.un(k) == "COMMENT" for k in c.comparators)) or
+                                 (isinstance(c, ast.Call) and P.un(c.func) == "isinstance" and P.un(c.args[0]) == var and "Comment" in P.un(c.args[1])) for c in ast.walk(fn))
+                    ctx.ob("C16.R8", f"{RD}::{fname}::{var} = _read_next(ctx) is compared with the COMMENT sentinel", RD, x.lineno, tested,
+                           "" if tested else f"`{var}` may be the COMMENT sentinel (a ; comment, #_ form or unselected reader conditional was read) and is embedded in the form as it is: the form returned contains a reader-internal object, not Lisp data",
+                           witness="(read-string \"#f \\\"{#_x y}\\\"\") => (basilisp.core/str \"\" <Comment> \"\")")
+    # (b)
+    rt = fns.get("_resolve_tagged_literal")
+    if rt is None:
+        raise AnalysisError("anchor vanished: reader._resolve_tagged_literal")
+    table_vars = {t.id for a in ast.walk(rt) if isinstance(a, ast.Assign) and isinstance(a.value, ast.Subscript) and "data_readers" in P.un(a.value.value).lower() for t in a.targets if isinstance(t, ast.Name)}
+    calls = [c for c in P.calls(rt) if isinstance(c.func, ast.Name) and c.func.id in table_vars]
+    if not calls:
+        raise AnalysisError("_resolve_tagged_literal no longer calls a data reader taken from the tables")
+    for c in calls:
+        handlers = _enclosing_handlers(c, rt)
+        uncovered = sorted(e for e in ("TypeError", "ValueError") if not any(_handler_covers(h, e) and _handler_raises_syntax(h) for h in handlers))
+        ctx.ob("C16.R8", f"{RD}::_resolve_tagged_literal::{P.un(c)} inside a handler for TypeError and ValueError", RD, c.lineno, not uncovered,
+               "" if not uncovered else f"the data reader is a constructor applied to whatever form followed the tag; {uncovered} raised for a form of the wrong kind escapes the reader",
+               witness="(read-string \"#queue 5\") => TypeError")
+    # (e)
+    rc = fns.get("_read_character")
+    if rc is None:
+        raise AnalysisError("anchor vanished: reader._read_character")
+    gc = CFG(rc)
+    tok = next((P.un(a.targets[0]) for a in ast.walk(rc) if isinstance(a, ast.Assign) and P.un(a.value) in ("''.join(s)", '"".join(s)')), None)
+    if tok is None:
+        raise AnalysisError("_read_character no longer joins its token from the characters read")
+    rets = [nd for nd in gc.nodes if nd.kind == "stmt" and isinstance(nd.ast, ast.Return) and nd.ast.value is not None and P.un(nd.ast.value) == tok]
+
+    def non_empty(t, _b, lab, tok=tok):
+        txt = P.un(t.ast) if t.kind == "test" else ""
+        return (txt in (f"{tok} == ''", f"not {tok}", f"len({tok}) == 0") and lab is False) or (txt in (tok, f"{tok} != ''", f"len({tok}) > 0") and lab is True)
+    ok = bool(rets) and all(gc.edge_dominated(r, non_empty) for r in rets)
+    raises_eof = any(isinstance(r, ast.Raise) and "eof_error" in P.un(r) for i in ast.walk(rc) if isinstance(i, ast.If) and tok in P.un(i.test) for r in i.body)
+    ctx.ob("C16.R8", f"{RD}::_read_character::an empty token is an unexpected end of input", RD, rc.lineno, ok and raises_eof,
+           "" if ok and raises_eof else f"`return {tok}` is reachable with an empty token, which only a backslash at the very end of the input produces: it reads as the empty string instead of raising eof_error",
+           witness="(read-string \"\\\\\") => \"\"")
+    if n_c == 0 or n_d == 0:
+        raise AnalysisError(f"C16.R8 found no instances for a clause (indexing: {n_c}, raw _read_next: {n_d})")
+    ctx.note(f"C16.R8: {n_a} asserts on read values, {n_c} constant subscripts of forms, {n_d} raw _read_next results")
+
+
 SELFTEST = [
+    {"name": "reader tag checked with an assert (the repaired defect)", "file": RD, "expect": "C16.R8",
+     "old": "        if not isinstance(s, sym.Symbol):\n            raise ctx.syntax_error(f\"Expected a symbol as a reader tag, got '{s}'\")\n", "new": "        assert isinstance(s, sym.Symbol)\n"},
+    {"name": "data reader TypeError escapes (the repaired defect)", "file": RD, "expect": "C16.R8",
+     "old": "        except (TypeError, ValueError) as e:\n            raise ctx.syntax_error(f\"Invalid #{s} literal: {e}\") from None\n", "new": ""},
+    {"name": "unquote indexed without an arity test (the repaired defect)", "file": RD, "expect": "C16.R8",
+     "old": "    if len(form) != 2:  # type: ignore[arg-type]\n        raise ctx.syntax_error(f\"{form.first} takes exactly one form\")  # type: ignore[union-attr]\n", "new": ""},
+    {"name": "f-string expression read without the comment filter (the repaired defect)", "file": RD, "expect": "C16.R8",
+     "old": "            expr = _read_next_form(ctx, \"string\")\n", "new": "            expr = _read_next(ctx)\n            if expr is ctx.eof:\n                raise ctx.eof_error(\"Unexpected EOF in string\")\n"},
+    {"name": "lone backslash reads as the empty string (the repaired defect)", "file": RD, "expect": "C16.R8",
+     "old": "    if character == \"\":\n        raise ctx.eof_error(\"Unexpected EOF in character literal\")\n", "new": ""},
     {"name": "unguarded int on letters", "file": RD, "expect": "C16.R1",
      "old": "            try:\n                v = int(match.group(2), base=base)\n            except ValueError as e:\n                raise ctx.syntax_error(f\"Invalid number format: {s}\") from e\n            else:\n                return -v if neg else v\n",
      "new": "            v = int(match.group(2), base=base)\n            return -v if neg else v\n",
